@@ -44,7 +44,11 @@ R3 == [locus |-> [name |-> "trna_x1", len |-> "150", mol |-> "tRNA", topo |-> "l
        others |-> <<>>,
        feats |-> <<[key |-> "tRNA", loc |-> <<"join(1..30,", "61..90,", "complement(100..110),", "145..150)">>, quals |-> <<Q("product", <<"tRNA-Phe">>), Q("db_xref", <<"GeneID:1">>)>>],
                    [key |-> "exon", loc |-> <<"1..30">>, quals |-> <<>>],
-                   [key |-> "intron", loc |-> <<"31..60">>, quals |-> <<>>]>>,
+                   [key |-> "intron", loc |-> <<"31..60">>, quals |-> <<>>],
+                   (* one-base leaves, bare and as spans, with and without partial markers, under operators *)
+                   [key |-> "misc_feature", loc |-> <<"join(<5..5,", "complement(7..>7),", "9,", "12..12)">>, quals |-> <<>>],
+                   [key |-> "variation", loc |-> <<"<14..14">>, quals |-> <<Q("note", <<"n">>)>>],
+                   [key |-> "variation", loc |-> <<"complement(<20..>20)">>, quals |-> <<>>]>>,
        origin |-> SeqOf(150)]
 (* words that are top-level keywords, placed where wrapping puts them at the start of continuation lines *)
 KW == <<"FEATURES", "and", "ORIGIN", "of", "SOURCE", "in", "REFERENCE", "to", "DEFINITION", "or", "ACCESSION", "VERSION", "LOCUS", "KEYWORDS", "COMMENT", "ORGANISM", "AUTHORS", "TITLE">>
